@@ -2,19 +2,28 @@
 C10 on the extension model — "The output never contains the STX/ETX control characters or any of the placeholder
 tokens the converter uses internally …" for `PipelineX.convertX` (`Markdown(extensions=[…]).convert`) when the enabled
 extensions act in the inline stage only: **nl2br** (`SubstituteTagInlineProcessor('\n', 'br')`, the last entry of the
-pattern table).
+pattern table) and **wikilinks** (`WikiLinksInlineProcessor`, `\[\[([\w0-9_ -]+)\]\]`, between `entity` and
+`not_strong`).
 
 `Model/InlineX.lean` runs the inline processor over a pattern TABLE (`InlineX.table footnotes wikilinks nl2br`: the
 sixteen core patterns with the patterns of the extensions in registry order).  The invariant proofs of
 `Props/C10b.lean` (`handleInline`, `run`) are ported to `handleInlineX`, `runX`, parametric in a contract of the table
 entries (`FMSpecXB`), which is then established for the tables.
 
+**Blank wikilink labels.**  For `[[   ]]` the wikilink pattern returns the EMPTY string; the engine stashes it, and
+when the placeholder is replaced the texts on both sides are joined.  That can complete a code span around an escape
+token on the second pass: `C10X_blank_wikilink_leak` (real implementation:
+`markdown.markdown('*x __`[[ ]]`` \\* ```__ y*', extensions=['wikilinks'])` contains `\x0242\x03`).  The theorems
+therefore require, when wikilinks is on, that the normalised text has no `[` immediately followed by a blank
+(`C10DomainW`); the property is decidable on the source, kept by the block parser (infixes, newline-joins) and by the
+inline engine (`Qw`, `Lemmas/PlaceholdersXQ.lean`).
+
 Vocabulary: `Spec/NoCtl.lean`, `Spec/NoCtlB.lean`; helper lemmas: `Lemmas/PlaceholdersX*.lean`.  Core Lean only.
 
 1. `C10X_inline_engine`: `handleInlineTopX` keeps the invariants for every table whose entries meet `FMSpecXB`.
-2. `C10X_inline_ids_bounded`: … and the tables with nl2br do.
+2. `C10X_nl_entry`, `C10X_wikilink_entry`, `C10X_footnote_entry`, `C10X_inline_ids_bounded`: … and all eight tables do.
 3. `C10X_inline_all_visited_run`: `runX` replaces every placeholder.
-4. `C10X_partial_nl2br`: end to end.
+4. `C10X_partial_inline_flags`, `C10X_partial_nl2br`: end to end.  `C10X_blank_wikilink_leak`: the excluded point.
 -/
 import MdVerif.Lemmas.PlaceholdersX
 
@@ -24,44 +33,79 @@ open MdVerif.NoCtl Py Inline InlineX
 /-! ## 1–2. `handleInlineX` -/
 
 /-- **The inline engine over a pattern table.**  If every entry of the (non-empty) table meets the matcher contract
-    `FMSpecXB` — the entry at index `pi` neither stashes nor touches the HTML stash, its match satisfies `FoundOKB`, and
-    without a match the backtick pattern is through with the data — then `handleInlineTopX` has the contract of the
-    core `handleInline` (`HISpecB`): on a text of the tree (`StrT`) it returns a text in which moreover `BACKTICK_RE`
-    matches nowhere (`StrB`), and a closed stash (`StOKB`); the HTML stash is untouched. -/
-theorem C10X_inline_engine {xc : XCfg} (hfm : FMSpecXB xc) (hcount : 1 ≤ xc.table.length) : HISpecXB xc :=
-  hiSpecXB_of_fmSpecXB hfm hcount
-
-/-- **`ids_bounded`, tables with nl2br.**  For the pattern table of the core patterns with or without the nl2br
-    pattern (`'\n'` ↦ `br`, last entry), escapable characters that are ordinary ones and reference definitions without
-    STX/ETX, `handleInlineTopX` meets `HISpecXB`. -/
-theorem C10X_inline_ids_bounded {xc : XCfg} (hcfg : EscOK xc.cfg.esc) (hrefs : RefsOK xc.cfg) {nl : Bool}
-    (ht : xc.table = table false false nl) : HISpecXB xc := hiSpecXB_nl hcfg hrefs ht
-
-example : EscOK ({ table := table false false true } : XCfg).cfg.esc ∧
-    RefsOK ({ cfg := { refs := [("x".toList, "/u".toList, some "T".toList)] }, table := table false false true } : XCfg).cfg :=
-  ⟨escOK_default, by intro r hr; simp at hr; subst hr; exact ⟨by decide, by decide⟩⟩
-
-/-- the nl2br pattern stands last in its table, behind the sixteen core patterns -/
-example : table false false true = (List.range 16).map PatK.core ++ [PatK.nl] := by decide
+    `FMSpecXB` — the entry at index `pi` neither stashes nor touches the HTML stash, its match satisfies `FoundOKB`
+    (and `FoundQ`: its strings keep the exclusion `Qw wl`), and without a match the backtick pattern is through with
+    the data — then `handleInlineTopX` has the contract of the core `handleInline` (`HISpecB`): on a text of the tree
+    (`StrT`) it returns a text in which moreover `BACKTICK_RE` matches nowhere (`StrB`), and a closed stash (`StOKB`);
+    the HTML stash is untouched; `Qw wl` holds of the result and of every string of the stash (`QSt`). -/
+theorem C10X_inline_engine {wl : Bool} {xc : XCfg} (hfm : FMSpecXB wl xc) (hcount : 1 ≤ xc.table.length) :
+    HISpecXB wl xc := hiSpecXB_of_fmSpecXB hfm hcount
 
 /-- the contract of the nl2br entry: the match is the single newline, the node a childless `br` element -/
-theorem C10X_nl_entry {xc : XCfg} {pi : Nat} (hpi : 1 ≤ pi) : EntrySpecXB xc pi .nl := entry_nl hpi
+theorem C10X_nl_entry {wl : Bool} {xc : XCfg} {pi : Nat} (hpi : 1 ≤ pi) : EntrySpecXB wl xc pi .nl := entry_nl hpi
+
+/-- the contract of the wikilink entry: on a text without `[` immediately before a blank the label of a match
+    `[[label]]` is not blank, and the node is an `a` element whose text (`strip label`), `href` and `class` consist of
+    word characters, blanks, `-`, `_`, `/` -/
+theorem C10X_wikilink_entry {xc : XCfg} {pi : Nat} (hpi : 1 ≤ pi) : EntrySpecXB true xc pi .wikilink :=
+  entry_wikilink hpi
+
+/-- the contract of the footnote-reference entry (`FootnoteInlineProcessor`, `\[\^([^\]]*)\]`): a match `[^id]` has
+    an id that is a key of the footnote table; when the keys have no STX/ETX, the node is a `sup` element whose `id`
+    (`fnref:ID`, made unique by `makeFootnoteRefId`), and whose `a` child's `href` (`#fn:ID`), `class` and text (the
+    footnote number) have none either.  Only the footnote bookkeeping `x.fn` changes. -/
+theorem C10X_footnote_entry {wl : Bool} {xc : XCfg} (hkeys : ∀ k ∈ xc.fnKeys, NoCtl k) {pi : Nat} (hpi : 1 ≤ pi) :
+    EntrySpecXB wl xc pi .footnote := entry_footnote hkeys hpi
+
+/-- **`ids_bounded`, all eight tables.**  For the pattern table of the core patterns with or without the footnote,
+    wikilink and nl2br patterns, escapable characters that are ordinary ones, reference definitions and footnote keys
+    without STX/ETX, `handleInlineTopX` meets `HISpecXB`. -/
+theorem C10X_inline_ids_bounded {xc : XCfg} (hcfg : EscOK xc.cfg.esc) (hrefs : RefsOK xc.cfg)
+    (hkeys : ∀ k ∈ xc.fnKeys, NoCtl k) {fn wl nl : Bool} (ht : xc.table = table fn wl nl) : HISpecXB wl xc :=
+  hiSpecXB_tables hcfg hrefs hkeys ht
+
+example : EscOK ({ table := table true true true } : XCfg).cfg.esc ∧
+    RefsOK ({ cfg := { refs := [("x".toList, "/u".toList, some "T".toList)] }, table := table true true true } : XCfg).cfg ∧
+    (∀ k ∈ ({ table := table true true true, fnKeys := ["1".toList, "note".toList] } : XCfg).fnKeys, NoCtl k) :=
+  ⟨escOK_default, by intro r hr; simp at hr; subst hr; exact ⟨by decide, by decide⟩, by decide⟩
+
+/-- the footnote pattern stands between `escape` (1) and `reference` (2), the wikilink pattern between `entity` (12)
+    and `not_strong` (13), the nl2br pattern last -/
+example : table true true true =
+    [PatK.core 0, PatK.core 1, PatK.footnote] ++ (List.range' 2 11).map PatK.core ++
+      [PatK.wikilink, PatK.core 13, PatK.core 14, PatK.core 15, PatK.nl] := by decide
 
 /-! ## 3. `runX` -/
 
 /-- **`all_visited`, `InlineProcessor.run` over a table.**  Given the contract of `handleInlineTopX`, `runX` turns a
-    tree of `WNodeB 0` elements (no placeholder; atomic texts without STX/ETX) into such a tree: every placeholder that
-    the patterns made has been replaced.  The HTML stash is the initial one. -/
-theorem C10X_inline_all_visited_run {xc : XCfg} (hhi : HISpecXB xc) {tree t : Node} {html : List Str} {xs : XSt}
-    (ht : tree.Forall (WNodeB 0)) (h : runX xc tree html = some (t, xs)) :
-    t.Forall (WNodeB 0) ∧ xs.st.html = html := runX_specB hhi ht h
+    tree of `WNodeB 0` elements (no placeholder; atomic texts without STX/ETX) whose strings satisfy `Qw wl` into a tree
+    of `WNodeB 0` elements: every placeholder that the patterns made has been replaced.  The HTML stash is the initial
+    one. -/
+theorem C10X_inline_all_visited_run {wl : Bool} {xc : XCfg} (hhi : HISpecXB wl xc) {tree t : Node} {html : List Str}
+    {xs : XSt} (ht : tree.Forall (WNodeB 0)) (htq : tree.Forall (QN wl)) (h : runX xc tree html = some (t, xs)) :
+    t.Forall (WNodeB 0) ∧ xs.st.html = html := runX_specB hhi ht htq h
 
 /-! ## 4. End to end -/
 
-/-- **End to end with nl2br.**  Every extension that acts on blocks or on the tree is off (`InlineFlagsOnly`), wikilinks
-    is off, nl2br is on or off.  For a source without `<`, `&` whose normalised text has none of the adjacencies
-    backslash–backtick, `![`, `](` (`C10DomainL`, the domain of `C10_partial_links`), whatever `convertX` returns (any
-    tab length, output format, block-level set; escapable characters ordinary ones) contains neither STX nor ETX. -/
+/-- **End to end with nl2br and wikilinks.**  Every extension that acts on blocks or on the tree is off
+    (`InlineFlagsOnly`); nl2br and wikilinks are on or off.  For a source without `<`, `&` whose normalised text has
+    none of the adjacencies backslash–backtick, `![`, `](` (`C10DomainL`, the domain of `C10_partial_links`) and — when
+    wikilinks is on — no `[` immediately followed by a blank (`C10DomainW`), whatever `convertX` returns (any tab
+    length, output format, block-level set; escapable characters ordinary ones) contains neither STX nor ETX. -/
+theorem C10X_partial_inline_flags {x : PipelineX.Exts} (hx : InlineFlagsOnly x)
+    (cfg : Pipeline.Cfg) (hcfg : EscOK cfg.esc) {src out : Str} (hd : C10DomainW x.wikilinks cfg.tab src)
+    (h : PipelineX.convertX x cfg src = .ok out) : NoCtl out := convertX_noctl_inline hx hcfg hd.1 hd.2 h
+
+example : InlineFlagsOnly { nl2br := true, wikilinks := true } ∧ EscOK ({} : Pipeline.Cfg).esc ∧
+    C10DomainW true 4 "a *b*\n[[Wiki Page]] \\* `c` [[x_y -z ]] [d][r] [[ä]]\n\n> q [[Q]]\n> r\n\n[r]: /u \"T\"".toList ∧
+    ¬ C10DomainW true 4 "[[ ]]".toList ∧ ¬ C10DomainW true 4 "[[ a]]".toList ∧ C10DomainW false 4 "[[ ]]".toList :=
+  ⟨by decide, escOK_default, by decide, by decide, by decide, by decide⟩
+
+example : PipelineX.convertX { nl2br := true, wikilinks := true } {} "a *b*\n[[Wiki Page]] \\* `c`".toList =
+    .ok "<p>a <em>b</em><br />\n<a class=\"wikilink\" href=\"/Wiki_Page/\">Wiki Page</a> * <code>c</code></p>".toList := by
+  decide +kernel
+
+/-- **End to end with nl2br** (wikilinks off): the domain is that of `C10_partial_links`. -/
 theorem C10X_partial_nl2br {x : PipelineX.Exts} (hx : InlineFlagsOnly x) (hw : x.wikilinks = false)
     (cfg : Pipeline.Cfg) (hcfg : EscOK cfg.esc) {src out : Str} (hd : C10DomainL cfg.tab src)
     (h : PipelineX.convertX x cfg src = .ok out) : NoCtl out := convertX_noctl_nl hx hw hcfg hd h
@@ -74,5 +118,17 @@ example : InlineFlagsOnly { nl2br := true } ∧ ({ nl2br := true } : PipelineX.E
 example : PipelineX.convertX { nl2br := true } {} "a *b*\nc \\* `d`  \ne [f][x] `g\nh`\n\n[x]: /u \"T\"".toList =
     .ok "<p>a <em>b</em><br />\nc * <code>d</code><br />\ne <a href=\"/u\" title=\"T\">f</a> <code>g\nh</code></p>".toList := by
   decide +kernel
+
+/-- **The excluded point: a blank wikilink label leaks.**  The source is in `C10DomainL` and violates only the
+    exclusion of `[` before a blank; with the wikilinks extension the output contains STX and ETX (the escape token of
+    `\*` inside a `code` element, which `UnescapeTreeprocessor` skips).  Without the extension the same source is
+    converted without a leak. -/
+theorem C10X_blank_wikilink_leak :
+    C10DomainL 4 "*x __`[[ ]]`` \\* ```__ y*".toList ∧ ¬ C10DomainW true 4 "*x __`[[ ]]`` \\* ```__ y*".toList ∧
+    PipelineX.convertX { wikilinks := true } {} "*x __`[[ ]]`` \\* ```__ y*".toList =
+      .ok "<p><em>x <strong><code>\x0242\x03</code></strong> y</em></p>".toList ∧
+    PipelineX.convertX {} {} "*x __`[[ ]]`` \\* ```__ y*".toList =
+      .ok "<p><em>x <strong>`[[ ]]`` * ```</strong> y</em></p>".toList :=
+  ⟨by decide, by decide, by decide +kernel, by decide +kernel⟩
 
 end MdVerif.NoCtlX
